@@ -208,9 +208,20 @@ func TestConsensusRuns(t *testing.T) {
 		}
 		groups[key] = append(groups[key], w)
 	}
-	for gi, key := range keys {
-		if err := writeGroup(filepath.Join(outdir, fmt.Sprintf("%s-%d-%d.ndjson", mode, seed, gi)), groups[key]); err != nil {
-			t.Fatal(err)
+	// runs with the same configuration share a trace file (one TLC start-up); at most 20 runs per file so that no single TLC run gets long
+	gi := 0
+	for _, key := range keys {
+		ws := groups[key]
+		for len(ws) > 0 {
+			n := len(ws)
+			if n > 20 {
+				n = 20
+			}
+			if err := writeGroup(filepath.Join(outdir, fmt.Sprintf("%s-%d-%d.ndjson", mode, seed, gi)), ws[:n]); err != nil {
+				t.Fatal(err)
+			}
+			ws = ws[n:]
+			gi++
 		}
 	}
 }
